@@ -692,6 +692,9 @@ impl rsass_verif_fs::Backend for SimBackend {
             None => false,
         }
     }
+    fn blocked_by_file(&self, path: &std::path::Path) -> bool {
+        self.dir(path).is_some_and(|(base, rel)| self.fs.blocked_by_file(&base, &rel))
+    }
     fn open(&self, path: &std::path::Path) -> io::Result<rsass_verif_fs::Opened> {
         let shown = path.display().to_string();
         let idx;
